@@ -34,6 +34,9 @@ ASSUMPTIONS = ['feature names contain no ";", "->", ","; the two features of a s
                'xxh64 external (driver XXH64 validated cell by cell in C10 and here)']
 
 MULTI = ['a,b', 'a-b', 'b', 'a', '', 'a,,b', '{}', 'x-{}', '{},a', 'é,a', 'a,é-b', ',', '-', 'a-', ',b', 'NA', 'NA,b', 'b,a', 'c']
+# tokens that mean something else when read as a pattern (regex / glob / substring), next to the tokens such a pattern would match
+MULTI_META = ['1.5', '115', '1.5,115', 'a.c,abc', 'abc', 'a.c', 'x+', 'xx', 'x+,y', 'a|b', 'ab', '(', '(,)', 'a*', 'aa', 'a*-aa',
+              '[z]', 'z', '^a', '$', 'a$', '\\d', '7', '\\d,7', 'A', 'a', 'aa,a', 'a?', '.', '.,q', 'q']
 SEL = ['', 'x', 'y', 'z', 'x&y', 'AND', 'x', 'é', '1', '11']
 NUM = ['0', '1', '2.5', '3', '10', '0.5', '7', '100', '']
 RANDOM_CONTROLS = ['CONTROL-gaussian', 'CONTROL-uniform', 'CONTROL-random-binary', 'CONTROL-random-card100',
@@ -55,7 +58,7 @@ def gen_case(rng, thorough):
     cols, kinds = [], {}
     for nm in names:
         kind = rng.choice(['multi', 'multi', 'sel', 'sel', 'num'])
-        base = {'multi': MULTI, 'sel': SEL, 'num': NUM}[kind]
+        base = {'multi': MULTI if rng.random() < 0.6 else MULTI_META, 'sel': SEL, 'num': NUM}[kind]
         card = rng.choice([1, 2, 3, 4, len(base)])
         vals = rng.sample(base, min(card, len(base)))
         cols.append([nm, [rng.choice(vals) for _ in range(n)]])
